@@ -89,7 +89,8 @@ Theorem c13_owner_pointer_into_label_starts : forall hl h n w L, NInv w hl L -> 
   hint_contract h n w -> hint_in h w L ->
   match write_hinted_name h n w with
   | Ok (pr, w') => emittedL n (w_buf w') (w_cursor w) (w_cursor w') L /\
-                   exists L', grew w w' L L' /\ NInv w' hl L' /\ (forall p, pr = Some p -> L' (p_ptr p))
+                   exists L', grew w w' L L' /\ NInv w' hl L' /\ (forall p, pr = Some p -> L' (p_ptr p)) /\
+                              emittedT n (w_buf w') (w_cursor w) (w_cursor w') L L'
   | Err (e, _) => e = Truncation
   | Panic => False
   end.
@@ -98,7 +99,8 @@ Proof. exact hinted_into_label_starts. Qed.
 Theorem c13_unhinted_pointer_into_label_starts : forall hl n w L, NInv w hl L -> wf_name n ->
   match write_unhinted_name n w with
   | Ok (pr, w') => emittedL n (w_buf w') (w_cursor w) (w_cursor w') L /\
-                   exists L', grew w w' L L' /\ NInv w' hl L' /\ (forall p, pr = Some p -> L' (p_ptr p))
+                   exists L', grew w w' L L' /\ NInv w' hl L' /\ (forall p, pr = Some p -> L' (p_ptr p)) /\
+                              emittedT n (w_buf w') (w_cursor w) (w_cursor w') L L'
   | Err (e, _) => e = Truncation
   | Panic => False
   end.
